@@ -114,6 +114,10 @@ type Sched struct {
 	// executions of one harness; see mc/schedmc.go). nil = everything is a choice point.
 	SharedObj func(kind, obj, thread string) bool
 
+	// Policy, when set, picks the default option at a decision beyond the prefix (scripted harnesses that
+	// need a particular order, e.g. "all writers queue before the WAL writer flushes"). nil = option 0.
+	Policy func(options []string) int
+
 	aborting  bool
 	Deadlock  bool
 	DeadInfo  string // what every unfinished thread was waiting for when the deadlock was detected
@@ -413,6 +417,12 @@ func (s *Sched) pick(cur *Thread) *Thread {
 			}
 			for _, k := range timers {
 				cp.Options = append(cp.Options, "timer:"+k.D.String())
+			}
+			if idx >= len(s.Prefix) && s.Policy != nil {
+				if c := s.Policy(cp.Options); c >= 0 && c < nopt {
+					choice = c
+					cp.Chosen = c
+				}
 			}
 			if idx < len(s.PrefixOpts) && s.PrefixOpts[idx] != nil {
 				if strings.Join(s.PrefixOpts[idx], "|") != strings.Join(cp.Options, "|") {
